@@ -147,6 +147,14 @@ Definition run_fs (st : option Loaded) (rt : option Routing) (F : fs) (op : stri
     | "pfind", [_; _; _; _] => pure (N [L "raise"; L "Unmodelled"])
     | "find_paths", [L cfg; L q] => pure (t_out sorted_strs (ffind Ld F (FPaths "" (default_cfg Ld cfg)) q))
     | "find_all", [L q] => pure (t_out sorted_strs (find_all Ld Rt F q))
+    (* find_one is the first result in enumeration order: modelled only when every unfolded search is a sorted (">") search *)
+    | "find_all_one", [L q] =>
+        match unfold_search Ld q false false with
+        | Ok qs => if forallb (fun x => mem_c ">" (s_string x)) qs
+                   then pure (t_out (t_opt L) (find_all_one Ld Rt F q))
+                   else pure (N [L "raise"; L "Unmodelled"])
+        | Raise _ => pure (t_out (t_opt L) (find_all_one Ld Rt F q))
+        end
     | "sid_exists", [s] => on_sid s (fun x => t_out t_bool (sid_exists Ld Rt F x))
     | "children", [s] => on_sid s (fun x => t_out sorted_strs (children Ld Rt F x))
     | "siblings", [s] => on_sid s (fun x => t_out sorted_strs (siblings Ld Rt F x))
